@@ -450,7 +450,7 @@ func cmdConc(prop string, args []string) int {
 	}
 	// a caller that gives up while its request sits between the read and the write of a record: the
 	// request must either not write at all or keep excluding rivals until it has written
-	if prop == "C04" {
+	if prop == "C04" && stats["stuck"] == 0 {
 		nCancel := 4
 		if cf.tier == "thorough" {
 			nCancel = 30
@@ -498,7 +498,7 @@ func cmdConc(prop string, args []string) int {
 		}
 	}
 	// sustained random load (C15): many rounds without delays, only completion is checked
-	if prop == "C15" {
+	if prop == "C15" && stats["stuck"] == 0 {
 		rl.delay = nil
 		load := 40
 		if cf.tier == "thorough" {
